@@ -9,7 +9,7 @@ use std::path::{Path, PathBuf};
 use std::sync::Arc;
 use sv_parser::Error;
 
-const BAD: [&str; 3] = ["\u{1}", "\u{7f}", "é"];
+const BAD: [&str; 5] = ["\u{1}", "\u{7f}", "é", "\u{a0}", "\u{b}"];
 const CLOSERS: [&str; 23] = [
     "end", "endmodule", "endfunction", "endtask", "endcase", "endgenerate", "join", "join_any", "join_none", "endclass",
     "endpackage", "endinterface", "endprogram", "endprimitive", "endtable", "endspecify", "endconfig", "endproperty",
@@ -139,7 +139,7 @@ fn ws_positions(s: &str) -> Vec<usize> {
 
 pub fn build(tier: Tier) -> Check<'static> {
     let mut c = Check::new("C14", tier, "6/C14");
-    c.rule = "accepted seed or default sentence of a reference-grammar rule or design elements inside a `begin_keywords region of each of the 8 versions (preprocessor fixed points only) x every token boundary x 3 bad bytes; x every single bracket / block keyword deleted; the same through `include; mutants through all three strict routes to a tree x ignore_include; 8 pp programs x every line start x 9 lexical faults; non-trivial = every mutant (distinct by construction)".into();
+    c.rule = "accepted seed or default sentence of a reference-grammar rule or design elements inside a `begin_keywords region of each of the 8 versions (preprocessor fixed points only) x every token boundary x 5 bad bytes (control bytes, a letter, two Unicode / ASCII white-space look-alikes that IEEE 5.3 does not list); x every single bracket / block keyword deleted; the same through `include; mutants through all three strict routes to a tree x ignore_include; 8 pp programs x every line start x 9 lexical faults; non-trivial = every mutant (distinct by construction)".into();
     c.assumptions = vec![
         "every sentence of the grammar is balanced in ( ) [ ] { } characters outside strings, comments and escaped identifiers, and in begin/end, fork/join*, case/endcase and the other block keyword pairs; hence deleting one of them cannot yield a sentence".into(),
         "the end of an escaped identifier is not a token boundary (any non-blank byte extends it)".into(),
@@ -200,7 +200,7 @@ pub fn build(tier: Tier) -> Check<'static> {
     let (bad_tab, del_tab) = (Arc::new(bad_tab), Arc::new(del_tab));
     {
         let (s, tab) = (seeds.clone(), bad_tab.clone());
-        c.parts.push(Part::new("bad-byte", (tab.len() * BAD.len()) as u64, "accepted seed x token boundary x {\\x01, \\x7f, é}: Error::Parse(Some((top, pos <= offset)))", move |i, acc| {
+        c.parts.push(Part::new("bad-byte", (tab.len() * BAD.len()) as u64, "accepted seed x token boundary x {\\x01, \\x7f, é, no-break space U+00A0, vertical tab}: Error::Parse(Some((top, pos <= offset)))", move |i, acc| {
             let (si, p) = tab[(i as usize) / BAD.len()];
             let bad = BAD[(i as usize) % BAD.len()];
             let Some(b) = base_of(&s[si].text, false) else { return };
